@@ -848,7 +848,7 @@ std::string gen(Rng& r, long i, const Args& a) {
   }
   if (mode == "bl") {
     const long N = g_bufsize;
-    const std::vector<long> LEN = {0, 1, 2, 3, std::max<long>(0, N - 2), std::max<long>(0, N - 1), N, N + 1, N + 2, 2 * N};
+    const std::vector<long> LEN = {0, 1, 2, 3, std::max<long>(0, N - 2), std::max<long>(0, N - 1), N, N + 1, N + 2, 2 * N, 4100, 5000};
     string x = longString(r, (size_t)r.pick(LEN)), y;
     size_t k = (size_t)r.below(x.size() + 1);
     if (r.coin(1, 3)) k = r.coin() ? x.size() - std::min<size_t>(x.size(), r.below(3)) : std::min<size_t>(x.size(), r.below(3));
